@@ -93,10 +93,11 @@ impl_bitsink!(dsi_bitstream::traits::BE);
 impl_bitsink!(dsi_bitstream::traits::LE);
 
 /// A word sink that keeps the first 4 words and counts the rest.
-struct WordSink {
-    first: Vec<u64>,
-    words: u64,
-    ones: u64,
+pub struct WordSink {
+    pub first: Vec<u64>,
+    pub words: u64,
+    pub ones: u64,
+    pub last: u64,
 }
 impl dsi_bitstream::traits::WordWrite for WordSink {
     type Error = std::convert::Infallible;
@@ -107,6 +108,7 @@ impl dsi_bitstream::traits::WordWrite for WordSink {
         }
         self.words += 1;
         self.ones += w.count_ones() as u64;
+        self.last = w;
         Ok(())
     }
     fn flush(&mut self) -> Result<(), Self::Error> {
@@ -149,7 +151,7 @@ fn check_huge(h: &Huge) -> CheckResult {
                     }
                 }
             } else {
-                let mut bw = std::mem::ManuallyDrop::new(BufBitWriter::<$E, _>::new(WordSink { first: vec![], words: 0, ones: 0 }));
+                let mut bw = std::mem::ManuallyDrop::new(BufBitWriter::<$E, _>::new(WordSink { first: vec![], words: 0, ones: 0, last: 0 }));
                 let pw = h.prew as usize;
                 let _ = bw.write_bits(mask64(pw), pw);
                 if let Err(er) = bw.copy_from::<$E, _>(&mut rd, h.n) {
